@@ -442,6 +442,22 @@ def keep_same_name_other_location(d, rng):
     return "same parameter name in two locations"
 
 
+def keep_case_variant_names(d, rng):
+    p, m, op = rng.choice(_ops(d))
+    loc = rng.choice(["query", "header"])
+    op.setdefault("parameters", []).extend([{"name": "cursor", "in": loc, "type": "string"}, {"name": "Cursor", "in": loc, "type": "string"}])
+    return "two parameters of one location whose names differ in case only"
+
+
+def keep_same_opid_other_case(d, rng):
+    ops = _ops(d)
+    if len(ops) < 2:
+        return None
+    a, b = rng.sample(ops, 2)
+    a[2]["operationId"], b[2]["operationId"] = "listThings", "ListThings"
+    return "operation ids that differ in case only"
+
+
 BREAKING = [("unique operation ids", edit_dup_opid, False), ("path parameters match the template", edit_missing_path_param, False),
             ("path parameters match the template", edit_extra_path_param, False), ("path parameters are required", edit_path_param_not_required, False),
             ("placeholders are unique", edit_dup_placeholder, False), ("unique name and location", edit_dup_param, False),
@@ -451,4 +467,43 @@ BREAKING = [("unique operation ids", edit_dup_opid, False), ("path parameters ma
             ("no circular ancestry", edit_circular, False), ("patterns are valid", edit_bad_pattern, False),
             ("no empty placeholder", edit_empty_placeholder, False), ("no overlapping paths", edit_overlap, True),
             ("at most one body parameter", edit_body_via_shared, False)]
-HARMLESS = [keep_required_via_additional, keep_required_via_nested_additional, keep_two_placeholders_one_segment, keep_same_name_other_location]
+HARMLESS = [keep_required_via_additional, keep_required_via_nested_additional, keep_case_variant_names, keep_same_opid_other_case, keep_two_placeholders_one_segment, keep_same_name_other_location]
+
+
+def ancestry_doc(rng):
+    """definitions related by allOf: chains, diamonds and cycles of ancestors, the $ref sometimes wrapped in inline allOf members"""
+    n = rng.randint(2, 5)
+    names = ["Anc%d" % i for i in range(n)]
+    cyclic = rng.random() < 0.5
+
+    def member(target, depth):
+        m = {"$ref": "#/definitions/" + target}
+        for _ in range(depth):
+            m = {"allOf": [m] + ([{"type": "object", "properties": {"w%d" % rng.randrange(99): {"type": "string"}}}] if rng.random() < 0.3 else [])}
+        return m
+    defs = {}
+    for i, nm in enumerate(names):
+        members = []
+        targets = [names[j] for j in range(i + 1, n) if rng.random() < 0.6]
+        if cyclic and i == n - 1:
+            targets.append(names[rng.randrange(n)])
+        for t in targets:
+            members.append(member(t, rng.choice([0, 0, 1, 2])))
+        members.append({"type": "object", "properties": {"p%d" % i: {"type": "string"}}})
+        rng.shuffle(members)
+        defs[nm] = {"allOf": members}
+    if rng.random() < 0.3:
+        # aliases: definitions that are nothing but a reference, possibly to each other
+        k = rng.randint(1, 3)
+        alias = ["Alias%d" % i for i in range(k)]
+        for i, a in enumerate(alias):
+            if rng.random() < 0.25:
+                tgt = alias[(i + 1) % k]             # a ring of aliases (or an alias of itself)
+            else:
+                tgt = rng.choice(names)
+            defs[a] = {"$ref": "#/definitions/" + tgt}
+        defs[rng.choice(names)]["allOf"].append({"$ref": "#/definitions/" + rng.choice(alias)})
+    doc = {"swagger": "2.0", "info": {"title": "ancestry", "version": "1"},
+           "paths": {"/p": {"get": {"operationId": "o", "responses": {"200": {"description": "ok", "schema": {"$ref": "#/definitions/" + names[0]}}}}}},
+           "definitions": defs}
+    return doc, cyclic
